@@ -30,6 +30,7 @@ RULE = (
     'Non-trivial = the history achieved at least one address reuse and one cache hit; distinct = the step sequence.'
 )
 RULE += ' Added in rounds 5-10: metrics objects on related trajectories with twins rebuilt from raw arrays; collective results checked against the loop model; copy / deepcopy / pickle of live objects pointed at other data; explicit falsy and negative arguments.'
+RULE += ' Round 14: float arguments that differ only in their last bits (2.0 + k ulp) are different arguments.'
 ASSUMPTIONS = [
     'single-threaded (GEMDAT has no threads): "schedules" are garbage-collection / allocation schedules',
     'K6 (cached Collective keeps its Jumps alive) tolerated only for a Jumps on which collective() was called, when every non-frame referrer is the __dict__ of a Collective (or of the surviving Jumps for its Transitions)',
@@ -142,6 +143,11 @@ def call_plan(kind, rng):
             ('to_graph', (), {'min_e_act': float(rng.choice([-1.0, -2.0]))}),
             ('to_graph', (float(rng.choice([-1, -2])),), {}),
             ('to_graph', (), {'max_e_act': 0}),
+            # arguments that differ only in the last few bits (2.0 and 2.0 + k ulp; a cut-off read from data and one
+            # computed from it) are different arguments
+            ('collective', (), {'max_dist': 2.0 * (1 + int(rng.integers(0, 6)) * 2.0**-50)}),
+            ('collective', (), {'max_dist': 2.0 * (1 + int(rng.integers(0, 6)) * 2.0**-50)}),
+            ('to_graph', (), {'max_e_act': 0.05 * (1 + int(rng.integers(0, 4)) * 2.0**-50)}),
         ]
     else:
         opts = [('site_pair_count_matrix', (), {}), ('site_pair_count_matrix_labels', (), {}), ('multiple_collective', (), {})]
